@@ -8,12 +8,13 @@ namespace Dig
 structure CtxSame (ctx ctx' : Ctx) : Prop where
   env : ctx'.env = ctx.env
   script : ctx'.script = ctx.script
+  forced : ctx'.forced = ctx.forced
   sameIds : ctx'.sameIds = ctx.sameIds
   recover : ctx'.cfg.recover = ctx.cfg.recover
   dry : ctx'.cfg.dry = ctx.cfg.dry
 
 theorem CtxSame.beh {ctx ctx' : Ctx} (h : CtxSame ctx ctx') (f x : Nat) : ctx'.beh f x = ctx.beh f x := by
-  unfold Ctx.beh; rw [h.script]
+  unfold Ctx.beh Ctx.scripted; rw [h.script, h.forced]
 
 theorem callBody_ctx {ctx ctx' : Ctx} (h : CtxSame ctx ctx') (who : Who) (fn : Fn) (args : List Val) :
     callBody ctx' who fn args = callBody ctx who fn args := by
